@@ -629,8 +629,41 @@ func genC20Op(t *rapid.T) c20Op {
 	}
 }
 
+// c20STLRowReads: EBU STL files that use the same row under different numbers of displayable rows and display
+// standards: the line percentage each read derives is known by construction (row 10 of 23 teletext rows: 39%, of 99
+// in-vision rows: 10%, of 11: 90%), whatever the process read before.
+func c20STLRowReads() []c20Op {
+	var ops []c20Op
+	for _, v := range []struct {
+		dsc  string
+		mnr  int
+		want string
+	}{{"1", 23, `WebVTTLine:"39%"`}, {"0", 99, `WebVTTLine:"10%"`}, {"0", 11, `WebVTTLine:"90%"`}, {"2", 23, `WebVTTLine:"39%"`}} {
+		d := stlDoc{GSI: stlGSI{Rate: 25, DSC: v.dsc, LC: "09", CD: "170702", RD: "170702", MNC: 40, MNR: v.mnr}}
+		d.Cues = append(d.Cues, stlCue{In: stlTC{0, 0, 1, 0}, Out: stlTC{0, 0, 2, 0}, VP: 10, JC: 2, Rows: [][]stlRun{{{Text: "row", Color: -1}}}})
+		if b, ok := renderSTL(d); ok {
+			ops = append(ops, c20Op{Kind: "read", Format: "stl", Doc: b, WantAny: []string{v.want}})
+		}
+	}
+	return ops
+}
+
 func TestC20(t *testing.T) {
 	runWitnesses(t, "C20")
+	// fixed cold-start cases: the reads above plus the fixed styled reads, as the first calls of a process - one after
+	// the other in both directions (history), and concurrently
+	sub(t, "fixed-cold-start", func(t *testing.T) {
+		if cfgShard != 0 {
+			return
+		}
+		ops := append(c20STLRowReads(), c20FixedReads()...)
+		for _, history := range []bool{true, false} {
+			c := c20Case{Goroutines: 8, Rounds: 1, Cold: true, History: history, Release: []int{0, 1, 2, 3, 4, 5, 6, 7}}
+			c.Ops = append(append(c.Ops, ops...), ops...)
+			ev.Case(true, fmt.Sprintf("fixed-cold-%v", history), "cold-start", "fixed-stl-rows", map[bool]string{true: "cold-start-history", false: "cold-start-concurrent"}[history])
+			verdict(t, "C20", "c20", c, checkC20)
+		}
+	})
 	rapidCheck(t, "C20/multisets", tier(96, 4000), func(rt *rapid.T) {
 		n := rapid.IntRange(4, 64).Draw(rt, "nops")
 		c := c20Case{Goroutines: rapid.IntRange(2, 32).Draw(rt, "goroutines"), Rounds: rapid.IntRange(1, 2).Draw(rt, "rounds")}
